@@ -97,20 +97,32 @@ func (p *poller) addConn(c *Conn) error {
 	} else {
 		p.g.onUDPListen(c)
 	}
-	p.g.connsUnix[fd] = c
+	// The open callback may have closed the connection: its descriptor is
+	// released then and the number may already belong to another connection,
+	// so neither the table entry nor the epoll registration of that number
+	// may be touched. Test, store and register under the mutex: a Close can
+	// not slip in between.
+	//
 	// A write issued by the open callback may have left a backlog. Its
 	// EPOLL_CTL_MOD could not succeed before the fd was added, so register the
 	// writing event together with the reading event in that case.
 	c.mux.Lock()
 	var err error
-	if len(c.writeList) > 0 {
-		err = p.addReadWrite(fd)
+	if c.closed {
+		err = net.ErrClosed
 	} else {
-		err = p.addRead(fd)
+		p.g.connsUnix[fd] = c
+		if len(c.writeList) > 0 {
+			err = p.addReadWrite(fd)
+		} else {
+			err = p.addRead(fd)
+		}
+		if err != nil {
+			p.g.connsUnix[fd] = nil
+		}
 	}
 	c.mux.Unlock()
 	if err != nil {
-		p.g.connsUnix[fd] = nil
 		_ = c.closeWithError(err)
 	}
 	return err
